@@ -111,18 +111,21 @@ impl ChecksumService for Algo {
         CKIN.lock().unwrap().push((self.0.to_string(), data.clone()));
         ev("cksum_in");
         let c = crc32(&data);
+        let sum = data.iter().fold(0u32, |a, b| a.wrapping_add(*b as u32));
+        let xor = data.iter().fold(0u8, |a, b| a ^ *b);
         match self.0 {
-            "SUM8" => Checksum::U8(data.iter().fold(0u8, |a, b| a.wrapping_add(*b))),
+            "SUM8" => Checksum::U8(sum as u8),
+            "Xor8" => Checksum::U8(xor),
             "CRC16" => Checksum::U16(c as u16),
+            "Add16" => Checksum::U16(sum as u16),
             "CRC32" => Checksum::U32(c),
+            "Mix32" => Checksum::U32(c ^ 0x5a5a_5a5a),
+            "Mix64" => Checksum::U64((((c as u64) << 32) | (c as u64)) ^ 0x0123_4567_89ab_cdef),
             _ => Checksum::U64(((c as u64) << 32) | ((c ^ 0xffff_ffff) as u64)),
         }
     }
 }
-static SUM8: Algo = Algo("SUM8");
-static CRC16: Algo = Algo("CRC16");
-static CRC32: Algo = Algo("CRC32");
-static CRC64: Algo = Algo("CRC64");
+static ALGOS: [Algo; 8] = [Algo("SUM8"), Algo("CRC16"), Algo("CRC32"), Algo("CRC64"), Algo("Xor8"), Algo("Add16"), Algo("Mix32"), Algo("Mix64")];
 
 pub struct ChecksumServiceContext { m: Mutex<HashMap<String, &'static dyn ChecksumService>> }
 impl ChecksumServiceContext {
@@ -131,7 +134,7 @@ impl ChecksumServiceContext {
 }
 pub static CHECKSUM_SERVICE_CONTEXT: std::sync::LazyLock<ChecksumServiceContext> = std::sync::LazyLock::new(|| {
     let c = ChecksumServiceContext { m: Mutex::new(HashMap::new()) };
-    c.register("SUM8", &SUM8); c.register("CRC16", &CRC16); c.register("CRC32", &CRC32); c.register("CRC64", &CRC64);
+    for a in ALGOS.iter() { c.register(a.0, a); }   // names are case-sensitive
     c
 });
 
